@@ -101,6 +101,14 @@ def rhs(m, s, d):
         dx = -0.7 * X + 0.4 * m.sin(X) * u0 + 0.25 * X * m.cos(X) + 0.5 * m.cos(1.3 * t) + 0.2 * t * X
     elif kind == "lin":
         dx = -0.6 * X + 0.8 * u0 + 0.15
+    elif kind == "poly1":       # solution is a polynomial of degree 1
+        dx = 0.7 + 0.0 * X
+    elif kind == "poly2":       # ... of degree 2
+        dx = 0.6 * t + 0.2 + 0.0 * X
+    elif kind == "polyd":       # ... of the scheme's degree
+        # degree up to which the statement promises exactness: 1 (expl_euler), 2 (rk), d (collocation)
+        n_ = d["degree"] if d["method"] == "DC" else (1 if d["intg"] == "expl_euler" else 2)
+        dx = t ** (n_ - 1) + 0.0 * X
     else:
         raise KeyError(kind)
     if d["control"] == "two":
